@@ -29,6 +29,9 @@ CLAIMED = {
  "C14": ("E1 breadth-first history exploration with provenance-state deduplication + E2 product",
          "all histories of <= 6 (quick) / <= 8 (thorough) operations from 36 operations that attach a function to objects, read it through . / [], move the value through variables, arguments, list elements, returns, destructuring and other objects, and call it; states merged on the (function, provenance) content of every holder; each history completed by calling every holder; plus arity 0..4 x rest x 0..5 arguments x every plain/spread split with printing arguments, parameter-freshness and callee-order programs; oracle = reference model with explicit provenance",
          "explicit-state breadth-first exploration with canonical-state deduplication on the real interpreter against a reference model"),
+ "C15": ("E2 product (complete)",
+         "all plain string literals of 0..4 (thorough 5) pieces over 22 pieces (ASCII, space, braces, every escape incl. upper/lower-case and leading-zero hex, 2/3/4-byte characters, raw newline; invalid escape, short hex, bad hex digit, raw $, trailing backslash), all interpolated literals of 0..2 (thorough 3) pieces over 10 pieces with 0..2 slots in every gap arrangement x 13 slot expressions (nested interpolation, quotes / braces / multi-byte text inside the slot, non-string and undefined slots), three-slot arrangements, 13 fixed programs; oracle = reference decoder (value, byte length, lexical error position) + laws evaluated by the subject (interpolation == concatenation, for/len agreement, split reassembly)",
+         "exhaustive enumeration of all literals up to a piece bound on the real interpreter against a reference decoder"),
  "C16": ("E2 product (complete, finite)",
          "the complete operator x operand matrix over 13 representative values of the 8 kinds (15 binary operators + `..`, 13x13 operands, two spellings), 5 op-assign operators x 4 target forms x 13x13, 45 typed contexts x 13 values; every cell executed on the real interpreter and judged against the table written out from the property statement, cross-checked with the reference model",
          "exhaustive enumeration of a finite product space on the real interpreter against a reference table"),
